@@ -227,6 +227,18 @@ func (c *c06Gen) spellStr(value string) string {
 		}
 		if literalOK && !g.Chance(1, 5) {
 			sb.WriteRune(r)
+			if len(quote) == 1 && g.Chance(1, 25) {
+				// a line join in the middle of the literal
+				c.nperturb["string-continuation"] = true
+				sb.WriteString("\\\n")
+			}
+			continue
+		}
+		if r < 0o100 && i+1 < len(rs) && rs[i+1] >= '0' && rs[i+1] <= '7' && g.Chance(1, 2) {
+			// a short octal escape ended by a line join: the digit on the next line is a character of its own
+			c.nperturb["string-escape"] = true
+			c.nperturb["escape-ended-by-line-join"] = true
+			fmt.Fprintf(&sb, "\\%o\\\n", r)
 			continue
 		}
 		c.nperturb["string-escape"] = true
